@@ -6,6 +6,8 @@ runs the property's check against the changed tree (VERIF_REPO=<worktree>), stor
 import sys, os, subprocess, json, shutil, re, time
 pid, sdir, idx, wt = sys.argv[1], sys.argv[2], sys.argv[3], sys.argv[4]
 extra = sys.argv[5:]
+tags = os.environ.get("SEED_TAGS", "")   # e.g. binary_log: the demo needs it, and the suite is run under it as well
+tagarg = f"-tags {tags} " if tags else ""
 env = dict(os.environ, GOFLAGS="-mod=mod", GOPROXY="off", GOSUMDB="off", GOTOOLCHAIN="local")
 def sh(cmd, cwd=None, timeout=1800, e=env):
     p = subprocess.run(cmd, cwd=cwd, shell=True, env=e, stdout=subprocess.PIPE, stderr=subprocess.STDOUT, text=True, timeout=timeout, errors="replace")
@@ -13,22 +15,24 @@ def sh(cmd, cwd=None, timeout=1800, e=env):
 patch = os.path.join(sdir, f"patch{idx}.diff")
 demo = os.path.join(sdir, f"demo{idx}")
 out = os.path.join("/verif/seeded", f"{pid}-{idx}")
-meta = dict(property=pid, source=f"independent sub-agent given only the property text and a scratch worktree", index=int(idx))
+meta = dict(property=pid, tags=tags, source=f"independent sub-agent given only the property text and a scratch worktree", index=int(idx))
 sh("git checkout -q -- . && git clean -fdq", cwd=wt)
 rc, o = sh(f"git apply --check {patch}", cwd=wt)
 if rc != 0:
     print("patch does not apply:", o); sys.exit(1)
 # without the change: demo passes
-rc0, o0 = sh("go test -count=1 ./... 2>&1 | tail -15", cwd=demo)
-rc0, o0 = sh("go test -count=1 ./...", cwd=demo)
+rc0, o0 = sh(f"go test -count=1 {tagarg}./...", cwd=demo)
 meta["demo_without_change"] = dict(exit=rc0, tail=o0[-600:])
 sh(f"git apply {patch}", cwd=wt)
 rcb, ob = sh("go build ./... ", cwd=wt)
 rcs, os_ = sh("go test -vet=off -count=1 ./... 2>&1", cwd=wt)
+if tags:
+    rct, ot = sh(f"go test -vet=off -count=1 {tagarg}. ./internal/cbor 2>&1", cwd=wt)
+    os_ += ot
 fails = re.findall(r"^\s*--- FAIL: (\S+)", os_, re.M) + re.findall(r"^FAIL[ \t]+(\S+)", os_, re.M)
 suite_ok = rcb == 0 and all(("journald" in f or f == "TestWriteReturnsNoOfWrittenBytes" or "RandomSampler" in f or f == "TestSamplers") for f in fails)  # RandomSampler is a known statistical flake of the pinned suite
 meta["suite_with_change"] = dict(build_exit=rcb, failures=fails, ok=suite_ok)
-rc1, o1 = sh("go test -count=1 ./...", cwd=demo)
+rc1, o1 = sh(f"go test -count=1 {tagarg}./...", cwd=demo)
 meta["demo_with_change"] = dict(exit=rc1, tail=o1[-1200:])
 confirmed = suite_ok and rc0 == 0 and rc1 != 0
 meta["confirmed"] = confirmed
@@ -52,7 +56,7 @@ if os.path.exists(notes):
     txt = open(notes).read()
     meta["needs_to_manifest"] = " ".join(txt.split())[:900]
 meta["what_was_run"] = [f"git -C <worktree> apply patch.diff", "go build ./... && go test -vet=off -count=1 ./... (only the journald baseline failure allowed)",
-                        "demo: go test -count=1 ./... with and without the change", f"VERIF_REPO=<worktree> bin/check {' '.join([pid]+extra)}"]
+                        f"demo: go test -count=1 {tagarg}./... with and without the change", f"VERIF_REPO=<worktree> bin/check {' '.join([pid]+extra)}"]
 json.dump(meta, open(os.path.join(out, "meta.json"), "w"), indent=1)
 print(json.dumps(dict(id=f"{pid}-{idx}", confirmed=confirmed, suite=meta["suite_with_change"], demo_without=rc0, demo_with=rc1,
                       checks={k: (v["detected"], v["lines"][:3]) for k, v in results.items()}), indent=1)[:3000])
